@@ -7,7 +7,8 @@ import random
 
 ALPHA = ['a', 'b', 'c', 'd']
 BUILTINS4 = ['request', '_application', '_route', '_dispatch_state']
-KINDS = ['plain', 'lambda', 'method', 'callable', 'static', 'classm', 'decorated', 'rewrapped']
+KINDS = ['plain', 'lambda', 'method', 'callable', 'static', 'classm', 'decorated', 'rewrapped', 'decorated_obj']
+EXOTIC = ['endpoint', 'render', 'funcs', 'BaseResponse', 'resp', '__traceback_hide__', 'process_request', 'inner']
 
 # ------------------------------------------------------------------ model side
 
@@ -130,7 +131,13 @@ class Lab(object):
 
     def exc(self, name):
         if name not in self.exc_classes:
-            self.exc_classes[name] = type(str(name), (Exception,), {})
+            if name.startswith('Http'):
+                # a clastic HTTPException (they are Responses too): raised, it must unwind like any other exception
+                from clastic import errors
+                base = {'409': errors.Conflict, '410': errors.Gone, '418': errors.ImATeapot}[name[4:]]
+                self.exc_classes[name] = type(str(name), (base,), {})
+            else:
+                self.exc_classes[name] = type(str(name), (Exception,), {})
         return self.exc_classes[name]
 
     def received(self, kwargs):
@@ -246,6 +253,17 @@ class Lab(object):
                 pass
             exec('def f(%s):\n    return _impl(%s)\n' % (ps, ds), ns)
             return functools.wraps(ns['g'])(ns['f'])
+        if kind == 'decorated_obj':
+            # clastic_decorator around a CLASS-based decorator: the wrapper is an object whose declared signature
+            # (the _sinter_fb clastic_decorator leaves on it) is the wrapped function's
+            class Wrapper(object):
+                def __init__(self, fn):
+                    self.fn = fn
+
+                def __call__(self, *a, **kw):
+                    return self.fn(*a, **kw)
+            exec('def f(%s):\n    return _impl(%s)\n' % (ps, ds), ns)
+            return clastic_decorator(Wrapper)(ns['f'])
         if kind == 'decorated':
             def deco(fn):
                 def wrapper(*a, **kw):
@@ -333,8 +351,10 @@ class Lab(object):
                 rn2 = self.make_callable(cfg['render']['sig'], 'plain', self.decoy_impl)
                 routes.append(POST('/<%s>/k%s' % (n, binds), ep2, rn2, middlewares=route_mws,
                                    resources=dict((x, self.reg['R:' + x]) for x in cfg['route_resources'] if x != n)))
-            routes.append(Route(pattern, ep, rn, middlewares=route_mws,
+            via_factory = bool(cfg['render'].get('factory'))
+            routes.append(Route(pattern, ep, 'render-argument' if via_factory else rn, middlewares=route_mws,
                                 resources=dict((n, self.reg['R:' + n]) for n in cfg['route_resources'])))
+            factory = (lambda arg: rn) if via_factory else None        # the render function comes out of the render factory
             handler = ErrorHandler(reraise_uncaught=True)
             if cfg.get('outer'):
                 o = cfg['outer']
@@ -342,13 +362,13 @@ class Lab(object):
                     self.reg.setdefault('R:' + n, Sent('R:' + n))
                 outer_mws = [self.make_mw(m, classes) for m in o['mws']]
                 inner = Application(routes, resources=dict((n, self.reg['R:' + n]) for n in cfg['resources']),
-                                    middlewares=app_mws)
+                                    middlewares=app_mws, render_factory=factory)
                 prefix = ''.join('/<%s>' % u for u in o['prefix_url']) or '/pre'
                 self.app = Application([(prefix, inner)], resources=dict((n, self.reg['R:' + n]) for n in o['resources']),
                                        middlewares=outer_mws, error_handler=handler)
             else:
                 self.app = Application(routes, resources=dict((n, self.reg['R:' + n]) for n in cfg['resources']),
-                                       middlewares=app_mws, error_handler=handler)
+                                       middlewares=app_mws, error_handler=handler, render_factory=factory)
         except Exception as e:
             return type(e).__name__
         return 'ok'
@@ -369,7 +389,7 @@ class Lab(object):
         if r.exc is not None:
             out = ['exc', type(r.exc).__name__]
             detail = str(r.exc)[:200]
-        elif r.code in (404, 405):
+        elif r.code >= 400:
             out, detail = ['resp', str(r.code)], None
         else:
             out, detail = ['resp', r.body.decode('utf8', 'replace')], None
@@ -420,6 +440,8 @@ def canon_model_run(run, drop_final):
             trace.append(['leave', fid, ev[2]])
     if outcome[0] == 'ctx':          # non-Response reaches dispatch -> TypeError
         outcome = ['exc', 'TypeError']
+    if outcome[0] == 'exc' and outcome[1].startswith('Http'):      # a raised HTTPException is answered with its own status
+        outcome = ['resp', outcome[1][4:]]
     return outcome, trace, ferr
 
 
@@ -538,7 +560,7 @@ def gen_config(rng, defect=None, posonly=False, embed=None):
            'url_multi': [url[-1]] if (url and rng.random() < 0.3) else [],
            'mws': [spec(m) for m in mws_app], 'route_mws': [spec(m) for m in mws_route],
            'endpoint': {'sig': ep_sig, 'kind': rng.choice(KINDS)},
-           'render': {'sig': rn_sig, 'kind': rng.choice(KINDS)}}
+           'render': {'sig': rn_sig, 'kind': rng.choice(KINDS), 'factory': rng.random() < 0.2}}
     if outer is not None:
         outer['mws'] = [spec(m) for m in mws_outer]
         cfg['outer'] = outer
@@ -551,7 +573,18 @@ def gen_config(rng, defect=None, posonly=False, embed=None):
               or d in BUILTINS4 + ['context', 'next']):
         del cfg['decoy']                  # the decoy pattern would bind one name twice: an invalid pattern, not this lab's subject
     cfg['scripts'] = gen_scripts(rng, cfg)
+    if rng.random() < 0.25:
+        # one letter of the alphabet becomes a name the framework's generated code uses itself
+        cfg = rename(cfg, rng.choice(ALPHA), rng.choice(EXOTIC))
     return cfg
+
+
+def rename(x, old, new):
+    if isinstance(x, dict):
+        return dict((k, rename(v, old, new)) for k, v in x.items())
+    if isinstance(x, list):
+        return [rename(v, old, new) for v in x]
+    return new if (isinstance(x, str) and x == old) else x
 
 
 DEFECTS = ['dup_mw_mw', 'dup_mw_url', 'dup_mw_resource', 'dup_mw_builtin', 'dup_url_resource', 'dup_url_builtin',
@@ -770,12 +803,13 @@ def gen_scripts(rng, cfg):
         tgt = rng.choice(['mw', 'mw', 'mw', 'ep', 'rn']) if funcs else rng.choice(['ep', 'rn'])
         if tgt == 'mw':
             ph, inst = rng.choice(funcs)
-            s = rng.choice([['raise', 'ErrB'], ['early', 'EARLY%d' % inst], ['call', ['raise_after', 'ErrA']],
+            s = rng.choice([['raise', 'ErrB'], ['raise', 'Http409'], ['call', ['raise_after', 'Http410']],
+                            ['early', 'EARLY%d' % inst], ['call', ['raise_after', 'ErrA']],
                             ['call', ['swallow', 'SW%d' % inst]], ['call', ['replace', 'RP%d' % inst]]])
             if not any(p == ph and i == inst for p, i, _ in sc['mw']):
                 sc['mw'].append([ph, inst, s])
         elif tgt == 'ep':
-            sc['ep'] = rng.choice([['resp', 'EPRESP'], ['raise', 'ErrE'], ['ctx', 'CTX2']])
+            sc['ep'] = rng.choice([['resp', 'EPRESP'], ['raise', 'ErrE'], ['raise', 'Http418'], ['ctx', 'CTX2']])
         else:
-            sc['rn'] = rng.choice([['raise', 'ErrR'], ['non', 'NON'], ['resp', 'RN2']])
+            sc['rn'] = rng.choice([['raise', 'ErrR'], ['raise', 'Http409'], ['non', 'NON'], ['resp', 'RN2']])
     return sc
